@@ -41,6 +41,7 @@ type c13scn struct {
 	Closer string `json:"closer"` // server | stream | client | teardown
 	Slow   bool   `json:"slow"`
 	N      int    `json:"n"` // readers
+	Cycles int    `json:"cycles"` // pause / resume cycles of the readers or of the publisher before the first Close
 }
 
 func driveC13(a *args, s *vt.Sink) error {
@@ -84,6 +85,9 @@ func driveC13(a *args, s *vt.Sink) error {
 		}
 		if sc.Kind == "play" && sc.Proto == "udp" && !sc.TLS && rng.Intn(2) == 0 {
 			sc.Proto = "mcast" // readers share the stream's multicast writer
+		}
+		if (sc.Kind == "play" || sc.Kind == "record") && rng.Intn(3) == 0 {
+			sc.Cycles = 1 + rng.Intn(2)
 		}
 		sc.Slow = rng.Intn(2) == 0
 		sc.N = 1 + rng.Intn(3)
@@ -317,6 +321,24 @@ func c13run(sc *c13scn, s *vt.Sink) (err error) {
 				}
 			}
 		}()
+	}
+
+	// pause / resume cycles (PLAY - PAUSE - PLAY, RECORD - PAUSE - RECORD): each one stops and
+	// restarts the session's transport and writer
+	for cy := 0; cy < sc.Cycles; cy++ {
+		time.Sleep(time.Duration(rng.Intn(1500)) * time.Microsecond)
+		for _, c := range clients {
+			if _, err := c.Pause(); err != nil {
+				return fmt.Errorf("c13: pause (%+v): %w", sc, err)
+			}
+			if sc.Kind == "record" {
+				if _, err := c.Record(); err != nil {
+					return fmt.Errorf("c13: record again (%+v): %w", sc, err)
+				}
+			} else if _, err := c.Play(nil); err != nil {
+				return fmt.Errorf("c13: play again (%+v): %w", sc, err)
+			}
+		}
 	}
 
 	// the moment of the first Close
